@@ -46,3 +46,22 @@ package synchronizer
 //@   ensures [filtered] forall i int :: {s.timeouts[i].View} 0 <= i && i < len(s.timeouts) ==> s.timeouts[i].View >= currentView
 //@   ensures [shrinks] len(s.timeouts) <= old(len(s.timeouts))
 //@   modifies s.timeouts, s.timeouts[*]
+
+// ---- sync info verification: which evidence an accepted sync info carries.
+// evid(a, si, v): si holds a valid certificate (QC, TC or aggregate QC) for exactly view v,
+// or v is 0 (nothing usable present).
+//@ pred evid(a *cert.Authority, si hotstuff.SyncInfo, v hotstuff.View) = v == 0 || (si.tc != nil && cert.tcok(a, *si.tc) && si.tc.view == v) || (si.qc != nil && cert.qcok(a, *si.qc) && si.qc.view == v) || (si.aggQC != nil && cert.aggok(a, *si.aggQC) && si.aggQC.view == v)
+
+//@ func (*Simple).VerifySyncInfo property C07
+//@   requires s.auth != nil && cert.awf(s.auth) && hotstuff.genesisBlock != nil
+//@   ensures [qc-valid] err == nil && qc != nil ==> cert.qcok(s.auth, *qc) && syncInfo.qc != nil && *qc == *syncInfo.qc
+//@   ensures [evidence] err == nil ==> evid(s.auth, syncInfo, view)
+//@   ensures [inv] cert.awf(s.auth)
+//@   modifies s.auth.blockchain.blocks[*], s.auth.blockchain.blockAtHeight[*], s.auth.blockchain.pendingFetch[*], s.auth.blockchain.eventLoop.handlers[*], alloc
+
+//@ func (*Aggregate).VerifySyncInfo property C07
+//@   requires s.auth != nil && cert.awf(s.auth) && hotstuff.genesisBlock != nil
+//@   ensures [qc-valid] err == nil && qc != nil ==> cert.qcok(s.auth, *qc)
+//@   ensures [evidence] err == nil ==> evid(s.auth, syncInfo, view)
+//@   ensures [inv] cert.awf(s.auth)
+//@   modifies s.auth.blockchain.blocks[*], s.auth.blockchain.blockAtHeight[*], s.auth.blockchain.pendingFetch[*], s.auth.blockchain.eventLoop.handlers[*], alloc
